@@ -146,10 +146,7 @@ def handle (toks : List String) : String :=
     | none => badOp
   | "ckks_new" :: rest =>
     match (parseLiteral? rest, (kv? rest "lds").bind String.toInt?) with
-    | (some lit, some lds) =>
-      match newParametersFromLiteral goOracle driverFuel lit with
-      | .ok a => if lds > 128 then "err:logDefaultScale" else showAccepted a
-      | r => showRes showAccepted r
+    | (some lit, some lds) => showRes showAccepted (ckksNewFromLiteral goOracle driverFuel lit lds)
     | _ => badOp
   | "bgv_new" :: rest =>
     match (parseAccepted? rest, (kv? rest "t").bind String.toNat?) with
